@@ -294,6 +294,7 @@ func ledgerEpoch(c *Ctx, mode string, nBlocks int, epoch int) {
 		defer func() { nb.Close() }()
 	}
 	var contracts []common.Address
+	contractClass := map[common.Address]string{} // contract address -> class of the tx that created it
 	l := &ledger{c: c, w: w, n: n, labels: map[common.Address]int{}, names: map[string]*ecdsa.PrivateKey{}, mode: mode, actorOf: map[common.Address]string{}}
 	// fixed labels: pool = 1, founder = 2
 	l.label(params.DepositPoolAddress)
@@ -369,6 +370,12 @@ func ledgerEpoch(c *Ctx, mode string, nBlocks int, epoch int) {
 	}{}
 
 	contractBlock := false
+	assetBlock := false // c01 mode: a block of asset txs (create / issue / replenish / multi-key modify / transfer)
+	type assetRec struct {
+		code, id      common.Hash
+		owner, holder string
+	}
+	var assetCodes, assetIDs []assetRec
 	nearBoundary := false // the block is in the last blocks of a term's mining period or in the interim period
 	genTx := func(head common.Hash) *ledgerTx {
 		u := userNames[rnd.Intn(len(userNames))]
@@ -398,7 +405,7 @@ func ledgerEpoch(c *Ctx, mode string, nBlocks int, epoch int) {
 				k = []string{"register-flag-false", "register-flag-false", "register-flag-blank", "register-flag-odd", "topup-flag-blank", "topup-flag-odd", "reregister-blank", "reregister-blank", "vote-odd", "vote-odd", "register-dupnode"}[rnd.Intn(11)]
 			}
 		case "payer-other-kind":
-			k = []string{"payer-vote", "payer-vote", "payer-register", "payer-topup", "payer-unregister"}[rnd.Intn(5)]
+			k = []string{"payer-vote", "payer-vote", "payer-register", "payer-topup", "payer-unregister", "payer-ms-ok", "payer-ms-ok", "payer-ms-short"}[rnd.Intn(8)]
 		case "setsigners-var":
 			k = []string{"setsigners-many", "setsigners-badweight", "setsigners-101", "setsigners-repeat-addr", "setsigners-temp-ok", "setsigners-temp-ok", "setsigners-temp-wrongtype", "setsigners-temp-wrongcreator", "setsigners-temp-again", "setsigners-light"}[rnd.Intn(10)]
 		}
@@ -406,8 +413,11 @@ func ledgerEpoch(c *Ctx, mode string, nBlocks int, epoch int) {
 			// candidates leaving around the term boundary, ex-candidates / income addresses that vote
 			k = []string{"unregister-cand", "exvote", "exvote", "incomevote", "incomevote", "register", "vote"}[rnd.Intn(7)]
 		}
+		if assetBlock {
+			k = []string{"asset-create", "asset-create", "asset-issue", "asset-issue", "asset-replenish", "asset-modify", "asset-modify", "asset-transfer", "asset-transfer", "transfer"}[rnd.Intn(10)]
+		}
 		if contractBlock {
-			k = []string{"create-counter", "create-reverter", "create-logger", "create-killer", "call", "call", "call-value", "transfer"}[rnd.Intn(8)]
+			k = []string{"create-counter", "create-reverter", "create-logger", "create-killer", "create-killer-self", "create-killer-self", "call", "call", "call", "call-value", "call-value", "transfer"}[rnd.Intn(12)]
 		}
 		c.Count("gen:" + k)
 		cands := []common.Address{}
@@ -508,6 +518,46 @@ func ledgerEpoch(c *Ctx, mode string, nBlocks int, epoch int) {
 			lt := mk(txVote(uk, cand, TxOpt{Exp: exp(), Msg: u_("pv"), Payer: l.key(other)}), k, u)
 			lt.payerKeys = []string{other}
 			return lt
+		case "payer-ms-ok", "payer-ms-short":
+			// the GAS PAYER is a multisig account: its registered signers sign the payer part (all of them / only the lightest)
+			if len(msAccts) > 0 {
+				acct := msAccts[rnd.Intn(len(msAccts))]
+				payerAddr := keyAddr(l.key(acct))
+				regs := append(types.Signers{}, l.view(head, payerAddr).signers...)
+				nameOfU := func(a common.Address) string {
+					for _, nm := range userNames {
+						if keyAddr(l.key(nm)) == a {
+							return nm
+						}
+					}
+					return ""
+				}
+				if k == "payer-ms-short" {
+					sort.Slice(regs, func(i, j int) bool { return regs[i].Weight < regs[j].Weight })
+					if len(regs) > 1 {
+						regs = regs[:1]
+					}
+				}
+				tx := types.NewReimbursementTransaction(keyAddr(uk), keyAddr(ok_), payerAddr, lemo(1), nil, params.OrdinaryTx, nodeChainID, exp(), "", u_("pms"))
+				stx, _ := types.MakeReimbursementTxSigner().SignTx(tx, uk)
+				stx = types.GasPayerSignatureTx(stx, oneGwei, 100000)
+				var signed []string
+				for _, r := range regs {
+					if nm := nameOfU(r.Address); nm != "" {
+						stx, _ = types.MakeGasPayerSigner().SignTx(stx, l.key(nm))
+						signed = append(signed, nm)
+					}
+				}
+				if len(signed) > 0 {
+					lt := mk(stx, k, u)
+					lt.payerKeys = signed
+					return lt
+				}
+			}
+			k = "payer"
+			lt := mk(txTransfer(uk, keyAddr(ok_), amountNear(nil), TxOpt{Exp: exp(), Msg: u_("gp"), Payer: l.key(other)}), k, u)
+			lt.payerKeys = []string{other}
+			return lt
 		case "payer-register", "payer-topup", "payer-unregister":
 			amt, unreg := regDeposit(), false
 			if k == "payer-topup" {
@@ -605,6 +655,43 @@ func ledgerEpoch(c *Ctx, mode string, nBlocks int, epoch int) {
 			k = "vote"
 		}
 		switch k {
+		case "asset-create":
+			return mk(txCreateAsset(uk, 1, true, true, TxOpt{Exp: exp(), Msg: u_("ac")}), k, u)
+		case "asset-issue":
+			if len(assetCodes) > 0 {
+				a := assetCodes[rnd.Intn(len(assetCodes))]
+				to := keyAddr(ok_)
+				if rnd.Intn(2) == 0 {
+					to = keyAddr(l.key(a.owner)) // (VerifyAssetTx looks a transferred asset id up in the SENDER's canonical account: only the issuer's own holdings pass)
+				}
+				return mk(txIssueAsset(l.key(a.owner), to, a.code, fmt.Sprintf("%d", 1000+rnd.Intn(9000)), "m", TxOpt{Exp: exp(), Msg: u_("ai")}), k, a.owner)
+			}
+			return mk(txCreateAsset(uk, 1, true, true, TxOpt{Exp: exp(), Msg: u_("ac")}), "asset-create", u)
+		case "asset-replenish":
+			if len(assetIDs) > 0 {
+				a := assetIDs[rnd.Intn(len(assetIDs))]
+				return mk(txReplenishAsset(l.key(a.owner), keyAddr(l.key(a.holder)), a.code, a.id, fmt.Sprintf("%d", 1+rnd.Intn(500)), TxOpt{Exp: exp(), Msg: u_("ar")}), k, a.owner)
+			}
+			k = "transfer"
+		case "asset-modify":
+			// several profile keys at once: ModifyAssetProfileTx must apply them in a node-independent order
+			if len(assetCodes) > 0 {
+				a := assetCodes[rnd.Intn(len(assetCodes))]
+				prof := map[string]string{types.AssetName: u_("N"), types.AssetSymbol: u_("S"), types.AssetDescription: u_("d"), types.AssetSuggestedGasLimit: fmt.Sprintf("%d", 60000+rnd.Intn(9000))}
+				if rnd.Intn(3) == 0 {
+					delete(prof, types.AssetSymbol)
+				}
+				return mk(txModifyAsset(l.key(a.owner), a.code, prof, TxOpt{Exp: exp(), Msg: u_("am")}), k, a.owner)
+			}
+			k = "transfer"
+		case "asset-transfer":
+			if len(assetIDs) > 0 {
+				a := assetIDs[rnd.Intn(len(assetIDs))]
+				return mk(txTransferAsset(l.key(a.holder), keyAddr(ok_), a.id, fmt.Sprintf("%d", 1+rnd.Intn(50)), TxOpt{Exp: exp(), Msg: u_("at")}), k, a.holder)
+			}
+			k = "transfer"
+		}
+		switch k {
 		case "create-counter":
 			// storage[0]++ ; emits nothing
 			rt := []byte{0x60, 0x01, 0x60, 0x00, 0x54, 0x01, 0x60, 0x00, 0x55, 0x00}
@@ -621,6 +708,10 @@ func ledgerEpoch(c *Ctx, mode string, nBlocks int, epoch int) {
 			// SELFDESTRUCT to caller
 			rt := []byte{0x33, 0xff}
 			return mk(txCreate(uk, lemo(int64(rnd.Intn(3))), initCodeFor(rt), TxOpt{Exp: exp(), Msg: u_("ck")}), k, u)
+		case "create-killer-self":
+			// SELFDESTRUCT to ITSELF: the endowment (and whatever is sent with the destroying call) is burnt
+			rt := []byte{0x30, 0xff}
+			return mk(txCreate(uk, lemo(int64(1+rnd.Intn(4))), initCodeFor(rt), TxOpt{Exp: exp(), Msg: u_("cks")}), k, u)
 		case "call", "call-value":
 			if len(contracts) == 0 {
 				return mk(txTransfer(uk, keyAddr(ok_), lemo(1), TxOpt{Exp: exp(), Msg: u_("nc")}), "transfer", u)
@@ -707,26 +798,88 @@ func ledgerEpoch(c *Ctx, mode string, nBlocks int, epoch int) {
 			stx, _ := types.MakeSigner().SignTx(tx, l.key("intruder"))
 			return mk(stx, k, "intruder")
 		case "tamper":
-			lt := mk(txTransfer(uk, keyAddr(ok_), lemo(2), TxOpt{Exp: exp(), Msg: u_("tm")}), k, u)
-			field := []string{"amount", "to", "gasLimit", "gasPrice", "expirationTime", "message"}[rnd.Intn(6)]
-			lt.tx = txEdit(lt.tx, func(m map[string]interface{}) {
+			// a signed tx whose content is edited afterwards (JSON level), one field at a time: every content field of the
+			// txdata, on plain transfers, on a vote, on a registration, and the gas terms / content of a reimbursed tx AFTER
+			// the gas payer signed
+			field := []string{"amount", "to", "gasLimit", "gasPrice", "expirationTime", "message", "data", "from", "type", "chainID", "version", "toName", "gasPayer",
+				"reimb-gasPrice", "reimb-gasLimit", "reimb-amount", "reimb-gasPayer", "vote-to", "register-data"}[rnd.Intn(19)]
+			var lt *ledgerTx
+			switch {
+			case strings.HasPrefix(field, "reimb-"):
+				lt = mk(txTransfer(uk, keyAddr(ok_), lemo(2), TxOpt{Exp: exp(), Msg: u_("tmr"), Payer: l.key(other)}), k, u)
+				lt.payerKeys = []string{other}
+			case field == "vote-to":
+				cand := keyAddr(ok_)
+				if len(cands) > 0 {
+					cand = cands[rnd.Intn(len(cands))]
+				}
+				lt = mk(txVote(uk, cand, TxOpt{Exp: exp(), Msg: u_("tmv")}), k, u)
+			case field == "register-data":
+				lt = mk(txRegister(uk, lemo(1100), l.key("node-"+u), false, nil, TxOpt{Exp: exp(), Msg: u_("tmg")}), k, u)
+			default:
+				lt = mk(txTransfer(uk, keyAddr(ok_), lemo(2), TxOpt{Exp: exp(), Msg: u_("tm")}), k, u)
+			}
+			edited := func(f func(m map[string]interface{})) (out *types.Transaction) {
+				defer func() {
+					if r := recover(); r != nil {
+						out = nil // the decoder refuses the edited tx: it cannot exist on the wire
+					}
+				}()
+				return txEdit(lt.tx, f)
+			}(func(m map[string]interface{}) {
 				switch field {
-				case "amount":
+				case "amount", "reimb-amount":
 					m["amount"] = lemo(3).String()
 				case "to":
 					m["to"] = keyAddr(l.key("intruder")).String()
-				case "gasLimit":
+				case "gasLimit", "reimb-gasLimit":
 					m["gasLimit"] = "0x30d41"
-				case "gasPrice":
+				case "gasPrice", "reimb-gasPrice":
 					m["gasPrice"] = "2000000000"
 				case "expirationTime":
 					m["expirationTime"] = fmt.Sprintf("0x%x", exp()+1)
 				case "message":
 					m["message"] = "changed"
+				case "data":
+					m["data"] = "0x01"
+				case "from":
+					m["from"] = keyAddr(ok_).String() // (for ok_ == uk nothing changes: class below is corrected)
+				case "type":
+					m["type"] = "2" // the signed transfer re-labelled as a vote for its recipient
+				case "chainID":
+					m["chainID"] = "201"
+				case "version":
+					m["version"] = "2"
+				case "toName":
+					m["toName"] = "alice"
+				case "gasPayer", "reimb-gasPayer":
+					m["gasPayer"] = keyAddr(l.key("intruder")).String()
+				case "vote-to":
+					if len(cands) > 1 {
+						m["to"] = cands[rnd.Intn(len(cands))].String()
+					} else {
+						m["to"] = keyAddr(l.key("intruder")).String()
+					}
+				case "register-data":
+					// the income address of the signed registration is redirected
+					var p types.Profile
+					json.Unmarshal(lt.tx.Data(), &p)
+					p[types.CandidateKeyIncomeAddress] = keyAddr(l.key("intruder")).String()
+					nd, _ := json.Marshal(p)
+					m["data"] = common.ToHex(nd)
 				}
 			})
-			lt.tampered = true
+			if edited == nil {
+				c.Count("tamper:refused-by-decoder:" + field)
+				lt.class = "transfer"
+				return lt
+			}
+			lt.tx = edited
+			lt.tampered = lt.tx.Hash() != lt.orig.Hash()
 			lt.class = "tamper-" + field
+			if !lt.tampered {
+				lt.class = "transfer" // the edit happened to write the value that was there
+			}
 			return lt
 		case "tamper-box":
 			// the owner signs a box holding sub-tx A; afterwards the box DATA is edited at JSON level: A is replaced by B
@@ -906,6 +1059,7 @@ func ledgerEpoch(c *Ctx, mode string, nBlocks int, epoch int) {
 		isReward := deputynode.IsRewardBlock(height)
 		nearBoundary = !first && (phase+2 >= termT || phase <= termI+1)
 		contractBlock = false
+		assetBlock = false
 		rewardSetBlock := false
 		var cand []*ledgerTx
 		if first {
@@ -945,7 +1099,8 @@ func ledgerEpoch(c *Ctx, mode string, nBlocks int, epoch int) {
 			cand = append(cand, mk(txSetReward(w.FounderKey, term, value, TxOpt{Exp: exp(), Msg: u_("rw")}), "set-reward", "founder"))
 			c.Count("block:set-reward")
 		} else {
-			contractBlock = mode == "c01" && !isReward && !isSnapshot && rnd.Intn(3) == 0
+			contractBlock = !isReward && !isSnapshot && (mode == "c01" && rnd.Intn(3) == 0 || mode == "c05" && rnd.Intn(5) == 0)
+			assetBlock = !contractBlock && !isReward && !isSnapshot && mode == "c01" && rnd.Intn(5) == 0
 			nt := 1 + rnd.Intn(7)
 			if isReward && rnd.Intn(3) == 0 {
 				nt = 0 // nothing but Finalize changes the state
@@ -990,7 +1145,7 @@ func ledgerEpoch(c *Ctx, mode string, nBlocks int, epoch int) {
 			blockGas = uint64(25000 + rnd.Intn(400000))
 			c.Count("block:tight-gas-limit")
 		}
-		modelled := !contractBlock && !rewardSetBlock
+		modelled := !contractBlock && !rewardSetBlock && !assetBlock
 		blockLine := fmt.Sprintf("block %d %d %d %s", height, l.label(miner), blockGas, l.depsField(parent.Hash(), height))
 		var txLines []string
 		for _, lt := range cand {
@@ -1026,7 +1181,13 @@ func ledgerEpoch(c *Ctx, mode string, nBlocks int, epoch int) {
 				}
 			}
 			mkTxs()
+			if assetBlock && os.Getenv("HX_DEBUG") != "" {
+				log.Setup(log.LevelInfo, false, true)
+			}
 			b, invalid, rec, err := l.buildRec(parent, t, txs, k, blockGas)
+			if assetBlock && os.Getenv("HX_DEBUG") != "" {
+				log.Setup(log.LevelCrit, false, false)
+			}
 			if err != nil {
 				return "builderr " + err.Error()
 			}
@@ -1051,6 +1212,26 @@ func ledgerEpoch(c *Ctx, mode string, nBlocks int, epoch int) {
 			refunds = rec.refunds
 			if isReward != rec.called {
 				c.Fail("c05/reward-block-schedule", fmt.Sprintf("block %d: IsRewardBlock=%v but LoadRefundCandidates called=%v", height, isReward, rec.called), nil)
+			}
+			// the VALIDATOR path must refuse what the miner path discarded: a block forged by a deputy that carries one of the
+			// unauthorised / tampered candidates (tx root recomputed, header re-signed by the miner's node key)
+			if modelled && mode != "c11" && len(invalid) > 0 && rnd.Intn(3) == 0 {
+				for _, itx := range invalid {
+					lt := byHash[itx.Hash()]
+					if lt == nil || !(lt.tampered || map[string]bool{"wrongkey": true, "payer-unsigned": true, "ms-short": true, "ms-dup": true, "ms-mall": true, "payer-ms-short": true}[lt.class]) {
+						continue
+					}
+					fb := CloneBlock(b)
+					fb.Txs = append(fb.Txs, itx.Clone())
+					fb.Header.TxRoot = fb.Txs.MerkleRootSha()
+					Resign(fb, k)
+					if e := n.Insert(fb); e == nil {
+						c.Fail("c06/forged-block-accepted/"+lt.class, fmt.Sprintf("block %d: the validator path accepted a block that carries a tx the miner path refused as unauthorised (class %s)", b.Height(), lt.class), nil)
+					} else {
+						c.Count("c06:forged-block-rejected:" + lt.class)
+					}
+					break
+				}
 			}
 			if e := n.Insert(CloneBlock(b)); e != nil {
 				if os.Getenv("HX_DEBUG") != "" {
@@ -1085,12 +1266,51 @@ func ledgerEpoch(c *Ctx, mode string, nBlocks int, epoch int) {
 			}
 			if modelled {
 				l.oracles(b, invalid, byHash, before, miner, multisig, rf, refunds)
+			} else if contractBlock {
+				// EVM value flows, reverts, out-of-gas, self-destruct: not modelled — conservation is judged by the oracle alone
+				l.contractSupplyOracle(b, miner, byHash, contractClass)
+			}
+			for _, tx := range b.Txs {
+				if tx.Type() == params.CreateContractTx {
+					if lt := byHash[tx.Hash()]; lt != nil {
+						contractClass[crypto.CreateContractAddress(tx.From(), tx.Hash())] = lt.class
+					}
+				}
+			}
+			for _, cl := range b.ChangeLogs {
+				if cl.LogType == account.CodeLog {
+					contracts = append(contracts, cl.Address)
+				}
+			}
+			for _, tx := range b.Txs {
+				lt := byHash[tx.Hash()]
+				if lt == nil {
+					continue
+				}
+				if !modelled {
+					c.Count("included:" + lt.class)
+				}
+				switch tx.Type() {
+				case params.CreateAssetTx:
+					assetCodes = append(assetCodes, assetRec{code: tx.Hash(), owner: l.actorOf[tx.From()]})
+				case params.IssueAssetTx:
+					if tx.To() != nil {
+						if hn, ok := l.actorOf[*tx.To()]; ok {
+							var iss struct {
+								AssetCode common.Hash `json:"assetCode"`
+							}
+							json.Unmarshal(tx.Data(), &iss)
+							// (category 1 = token asset: the asset id of every issue IS the asset code)
+							assetIDs = append(assetIDs, assetRec{code: iss.AssetCode, id: iss.AssetCode, owner: l.actorOf[tx.From()], holder: hn})
+						}
+					}
+				}
 			}
 			if mode == "c01" {
-				for _, cl := range b.ChangeLogs {
-					if cl.LogType == account.CodeLog {
-						contracts = append(contracts, cl.Address)
-					}
+				// sometimes node B first executes a COMPETING block on the same parent (another slot, other txs) that the
+				// network then drops: its state must leave no trace when B validates node A's block
+				if !first && !isSnapshot && n.BC.StableBlock().Hash() != b.Hash() && rnd.Intn(5) == 0 {
+					l.competingBlock(nb, parent, b, t, exp())
 				}
 				if !l.crossNode(nb, b, txs, t, byHash) {
 					// node B lost the chain: a fresh follower replays node A's blocks (with their confirmations)
@@ -1101,6 +1321,7 @@ func ledgerEpoch(c *Ctx, mode string, nBlocks int, epoch int) {
 						if blk == nil {
 							break
 						}
+						waitAssetIndex(nb, blk)
 						if e := nb.Insert(CloneBlock(blk)); e != nil {
 							c.Fail("c01/honest-block-rejected/fresh-follower", fmt.Sprintf("block %d of node A's chain is rejected by a fresh node replaying it: %v", h, e), nil)
 							break
@@ -1154,6 +1375,9 @@ func ledgerEpoch(c *Ctx, mode string, nBlocks int, epoch int) {
 		if !modelled {
 			if contractBlock {
 				c.Count("block:contract")
+			}
+			if assetBlock {
+				c.Count("block:asset")
 			}
 			if strings.HasPrefix(res, "sel=") {
 				resync()
@@ -1263,6 +1487,44 @@ func (l *ledger) oracles(b *types.Block, invalid types.Transactions, byHash map[
 		}
 		if len(refunds) > 0 {
 			c.Count("reward:refund")
+		}
+		// the refund SET, recomputed independently from the parent-view profiles and the real deputynode.Manager: every
+		// unregistered account with a deposit whose node is not a deputy of the new term must be refunded, nobody else
+		// (an account whose candidacy changed inside this very block is judged by the model diff only)
+		{
+			changed := map[common.Address]bool{}
+			var walkReg func(tx *types.Transaction)
+			walkReg = func(tx *types.Transaction) {
+				if tx.Type() == params.RegisterTx {
+					changed[tx.From()] = true
+				}
+				if tx.Type() == params.BoxTx {
+					if box, err := types.GetBox(tx.Data()); err == nil {
+						for _, st := range box.SubTxList {
+							walkReg(st)
+						}
+					}
+				}
+			}
+			for _, tx := range b.Txs {
+				walkReg(tx)
+			}
+			got := map[common.Address]bool{}
+			for _, a := range refunds {
+				got[a] = true
+			}
+			for _, a := range l.univ {
+				if changed[a] {
+					continue
+				}
+				pv := l.view(b.ParentHash(), a)
+				id := l.nodeIDOf(b.ParentHash(), a)
+				due := pv.isCand == 2 && pv.deposit != "" && !l.n.DM.IsNodeDeputy(b.Height(), common.FromHex(id))
+				if due != got[a] {
+					c.Fail("c05/refund-set-wrong", fmt.Sprintf("reward block %d: account %d (isCandidate code %d, deposit %q, node is deputy of the new term: %v) refund due=%v, refunded=%v", b.Height(), l.label(a), pv.isCand, pv.deposit, l.n.DM.IsNodeDeputy(b.Height(), common.FromHex(id)), due, got[a]), nil)
+				}
+				c.Count("reward:refund-set-checked")
+			}
 		}
 		for _, a := range refunds {
 			pv, nv := l.view(b.ParentHash(), a), l.view(b.Hash(), a)
@@ -1469,8 +1731,33 @@ func (l *ledger) oracles(b *types.Block, invalid types.Transactions, byHash map[
 			c.Count("reward:votes-moved-by-finalize-alone")
 		}
 	}
-	// ---- C06: every included tx was authorised
-	signersChanged := map[common.Address]bool{}
+	// ---- C06: every included tx was authorised — judged against the signer list in force WHEN the tx ran: the parent
+	// view's list, replaced by what a ModifySignersTx included earlier in this block stored (no tx is skipped)
+	curSigners := map[common.Address]types.Signers{}
+	signersOfNow := func(a common.Address) types.Signers {
+		if s, ok := curSigners[a]; ok {
+			return s
+		}
+		return l.view(b.ParentHash(), a).signers
+	}
+	// distinct-signer weight of the keys that REALLY signed, against a signer list
+	weightOfKeys := func(keys []string, regs types.Signers) int {
+		seen := map[common.Address]bool{}
+		total := 0
+		for _, kn := range keys {
+			a := keyAddr(l.key(kn))
+			if seen[a] {
+				continue
+			}
+			seen[a] = true
+			for _, r := range regs {
+				if r.Address == a {
+					total += int(r.Weight)
+				}
+			}
+		}
+		return total
+	}
 	var check func(tx *types.Transaction, lt *ledgerTx, parentHash common.Hash)
 	check = func(tx *types.Transaction, lt *ledgerTx, parentHash common.Hash) {
 		if lt == nil {
@@ -1478,19 +1765,21 @@ func (l *ledger) oracles(b *types.Block, invalid types.Transactions, byHash map[
 		}
 		defer func() {
 			if tx.Type() == params.ModifySignersTx && tx.To() != nil {
-				signersChanged[*tx.To()] = true
+				var ms struct {
+					Signers types.Signers `json:"signers"`
+				}
+				if json.Unmarshal(tx.Data(), &ms) == nil {
+					curSigners[*tx.To()] = ms.Signers
+					c.Count("c06:signers-changed-in-block(later-txs-judged-by-new-list)")
+				}
 			}
 		}()
-		if signersChanged[tx.From()] || signersChanged[tx.GasPayer()] {
-			c.Count("c06:skipped-signers-changed-earlier-in-block")
-			return
-		}
 		c.Count("included:" + lt.class)
 		if lt.tampered {
 			c.Fail("c06/tampered-tx-included/"+lt.class, fmt.Sprintf("block %d: tx changed after signing was executed", b.Height()), nil)
 		}
 		from := tx.From()
-		regs := l.view(parentHash, from).signers
+		regs := signersOfNow(from)
 		if len(regs) == 0 {
 			okk := false
 			for _, kn := range lt.fromKeys {
@@ -1502,33 +1791,27 @@ func (l *ledger) oracles(b *types.Block, invalid types.Transactions, byHash map[
 				c.Fail("c06/unauthorised-included/plain", fmt.Sprintf("block %d: tx from %d executed without the owner's signature (class %s)", b.Height(), l.label(from), lt.class), nil)
 			}
 		} else {
-			seen := map[common.Address]bool{}
-			total := 0
-			for _, kn := range lt.fromKeys {
-				a := keyAddr(l.key(kn))
-				if seen[a] {
-					continue
-				}
-				seen[a] = true
-				for _, r := range regs {
-					if r.Address == a {
-						total += int(r.Weight)
-					}
-				}
-			}
-			if total < 100 {
+			if total := weightOfKeys(lt.fromKeys, regs); total < 100 {
 				c.Fail("c06/unauthorised-included/multisig-"+lt.class, fmt.Sprintf("block %d: multisig tx executed with distinct signer weight %d < 100 (class %s)", b.Height(), total, lt.class), nil)
 			}
 		}
 		if tx.GasPayer() != from {
-			okk := false
-			for _, kn := range lt.payerKeys {
-				if keyAddr(l.key(kn)) == tx.GasPayer() {
-					okk = true
+			pregs := signersOfNow(tx.GasPayer())
+			if len(pregs) == 0 {
+				okk := false
+				for _, kn := range lt.payerKeys {
+					if keyAddr(l.key(kn)) == tx.GasPayer() {
+						okk = true
+					}
 				}
-			}
-			if !okk && len(l.view(parentHash, tx.GasPayer()).signers) == 0 {
-				c.Fail("c06/unauthorised-included/gas-payer", fmt.Sprintf("block %d: gas payer %d charged without its signature", b.Height(), l.label(tx.GasPayer())), nil)
+				if !okk {
+					c.Fail("c06/unauthorised-included/gas-payer", fmt.Sprintf("block %d: gas payer %d charged without its signature", b.Height(), l.label(tx.GasPayer())), nil)
+				}
+			} else {
+				c.Count("c06:multisig-gas-payer-judged")
+				if total := weightOfKeys(lt.payerKeys, pregs); total < 100 {
+					c.Fail("c06/unauthorised-included/multisig-gas-payer", fmt.Sprintf("block %d: multisig gas payer %d charged with distinct signer weight %d < 100 (class %s)", b.Height(), l.label(tx.GasPayer()), total, lt.class), nil)
+				}
 			}
 		}
 	}
@@ -1582,7 +1865,13 @@ func (l *ledger) tallyOK(h common.Hash, cand common.Address) bool {
 // Returns false when node B cannot follow node A any more (it has to be replaced by a fresh follower).
 func (l *ledger) crossNode(nb *Node, b *types.Block, cands types.Transactions, t uint32, byHash map[common.Hash]*ledgerTx) bool {
 	c := l.c
+	hasAssetTx := waitAssetIndex(nb, b)
 	if e := nb.Insert(CloneBlock(b)); e != nil {
+		if hasAssetTx {
+			// asset txs are pre-checked against the node's STABLE asset index / canonical accounts (known finding)
+			c.Fail("c01/honest-block-rejected/asset-tx-needs-locally-stable-asset", fmt.Sprintf("block %d (with asset txs) mined on node A is rejected by node B although B holds and confirmed the same blocks: %v", b.Height(), e), nil)
+			return false
+		}
 		if deputynode.IsSnapshotBlock(b.Height()) {
 			// does node B (restarted at some point) publish another candidate top list for the parent than node A did?
 			// That is C10's known restart / tie defect of the store's ranking (c10/restart-differs,
